@@ -225,4 +225,33 @@ func propC09(c *Ctx) {
 			}
 		}
 	}
+	d6 := c.Rule("D6", "K5 closed-world call-site table", "registrations and unregistrations name the same recorded scope and id", 15)
+	c.CheckCallers(d6, []string{"(*stack.Stack).RegisterTransportEndpoint", "(*stack.Stack).UnregisterTransportEndpoint"}, []CallerSpec{
+		{Fn: "(*ping.endpoint).Close", Target: "(*stack.Stack).UnregisterTransportEndpoint", Args: []string{"$0.stack", "$0.regNICID", "[$0.netProto]", "$0.transProto", "$0.id"}, Why: "ping endpoints (outside the properties) unregister their recorded scope"},
+		{Fn: "(*ping.endpoint).bindLocked", Target: "(*stack.Stack).UnregisterTransportEndpoint", Args: []string{"$0.stack", "new(tcpip.FullAddress).NIC@2", "[(*ping.endpoint).checkV4Mapped($0, &new(tcpip.FullAddress), false)#0]", "$0.transProto", "phi{(*ping.endpoint).registerWithStack($0, new(tcpip.FullAddress).NIC@2, [(*ping.endpoint).checkV4Mapped($0, &new(tcpip.FullAddress), false)#0], loop)#0 | partial}"}, Why: "bind rolled back: unregister what registerWithStack returned"},
+		{Fn: "(*ping.endpoint).registerWithStack", Target: "(*stack.Stack).RegisterTransportEndpoint", Args: []string{"$0.stack", "$1", "$2", "$0.transProto", "$3", "$0"}, Why: "register under the caller's scope and id"},
+		{Fn: "(*ping.endpoint).registerWithStack$1", Target: "(*stack.Stack).RegisterTransportEndpoint", Args: []string{"^$0.stack", "^$1", "^$2", "^$0.transProto", "^$3", "^$0"}, Why: "retry with an ephemeral ident"},
+		{Fn: "(*tcp.endpoint).Close", Target: "(*stack.Stack).UnregisterTransportEndpoint", Args: []string{"$0.stack", "$0.boundNICID", "$0.effectiveNetProtos", "6", "$0.id"}, Why: "unregistration names the recorded scope: boundNICID, effectiveNetProtos, id"},
+		{Fn: "(*tcp.endpoint).Listen", Target: "(*stack.Stack).RegisterTransportEndpoint", Args: []string{"$0.stack", "$0.boundNICID", "$0.effectiveNetProtos", "6", "$0.id", "$0"}, Why: "a listener registers under its recorded scope and id"},
+		{Fn: "(*tcp.endpoint).cleanupLocked", Target: "(*stack.Stack).UnregisterTransportEndpoint", Args: []string{"$0.stack", "$0.boundNICID", "$0.effectiveNetProtos", "6", "$0.id"}, Why: "unregistration names the recorded scope: boundNICID, effectiveNetProtos, id"},
+		{Fn: "(*tcp.endpoint).connect", Target: "(*stack.Stack).RegisterTransportEndpoint", Args: []string{"$0.stack", "phi{$0.boundNICID | new(tcpip.FullAddress).NIC@2}", "[(*tcp.endpoint).checkV4Mapped($0, &new(tcpip.FullAddress))#0]", "6", "$0.id", "$0"}, Why: "connect registers (NIC of the bind or of the address, protocol of the address, the 4-tuple just built)"},
+		{Fn: "(*tcp.endpoint).connect$2", Target: "(*stack.Stack).RegisterTransportEndpoint", Args: []string{"^$0.stack", "^&new(tcpip.NICID)", "[(*tcp.endpoint).checkV4Mapped(^$0, &new(tcpip.FullAddress))#0]", "6", "phi{^$0.id | partial}", "^$0"}, Why: "ephemeral port search registers the same scope with the candidate port"},
+		{Fn: "(*tcp.listenContext).createConnectedEndpoint", Target: "(*stack.Stack).RegisterTransportEndpoint", Args: []string{"tcp.newEndpoint($0.stack, phi{$0.netProto | $1.route.NetProto}, nil).stack", "tcp.newEndpoint($0.stack, phi{$0.netProto | $1.route.NetProto}, nil).boundNICID@1", "tcp.newEndpoint($0.stack, phi{$0.netProto | $1.route.NetProto}, nil).effectiveNetProtos@1", "6", "tcp.newEndpoint($0.stack, phi{$0.netProto | $1.route.NetProto}, nil).id@1", "tcp.newEndpoint($0.stack, phi{$0.netProto | $1.route.NetProto}, nil)"}, Why: "an accepted endpoint registers under the scope and id it was just given"},
+		{Fn: "(*udp.endpoint).Close", Target: "(*stack.Stack).UnregisterTransportEndpoint", Args: []string{"$0.stack", "$0.regNICID", "$0.effectiveNetProtos", "17", "$0.id"}, Why: "unregistration names the recorded scope: regNICID, effectiveNetProtos, id"},
+		{Fn: "(*udp.endpoint).Connect", Target: "(*stack.Stack).UnregisterTransportEndpoint", Args: []string{"$0.stack", "$0.regNICID", "$0.effectiveNetProtos", "17", "$0.id"}, Why: "the OLD registration is removed under the scope it was made with (regNICID and effectiveNetProtos as recorded, not the new connect scope) and the old id"},
+		{Fn: "(*udp.endpoint).bindLocked", Target: "(*stack.Stack).UnregisterTransportEndpoint", Args: []string{"$0.stack", "new(tcpip.FullAddress).NIC@2", "phi{[(*udp.endpoint).checkV4Mapped($0, &new(tcpip.FullAddress), true)#0] | [34525, 2048]}", "17", "phi{(*udp.endpoint).registerWithStack($0, new(tcpip.FullAddress).NIC@2, phi{[(*udp.endpoint).checkV4Mapped($0, &new(tcpip.FullAddress), true)#0] | [34525, 2048]}, loop)#0 | partial}"}, Why: "bind rolled back: unregister what registerWithStack returned, under the NIC just used"},
+		{Fn: "(*udp.endpoint).registerWithStack", Target: "(*stack.Stack).RegisterTransportEndpoint", Args: []string{"$0.stack", "$1", "$2", "17", "phi{$3 | partial}", "$0"}, Why: "register under the caller's scope; the id possibly with the reserved ephemeral port"},
+		{Fn: "udp.NewConnectedEndpoint", Target: "(*stack.Stack).RegisterTransportEndpoint", Args: []string{"$0", "(*stack.Route).NICID($1)", "[$1.NetProto]", "17", "$2", "udp.newEndpoint($0, $1.NetProto, $3)"}, Why: "forwarder-created endpoint registers on the route's NIC with the given id"},
+	})
+	if fn := c.Fn(d6, "(*udp.endpoint).Connect"); fn != nil {
+		nic := "phi{$0.bindNICID | $1.NIC}"
+		protos := "phi{[(*udp.endpoint).checkV4Mapped($0, &new(tcpip.FullAddress), false)#0] | [2048, 34525]}"
+		c.CheckSitesPresent(d6, fn, []SiteSpec{
+			{Kind: "call", Target: "(*udp.endpoint).registerWithStack", Args: []string{"$0", nic, protos, "*"}, N: 1, Why: "the new registration is made under (NIC, protocols)"},
+			{Kind: "store", Target: "udp.endpoint.regNICID", Args: []string{"$0", nic}, N: 1, Why: "... and exactly that NIC is recorded for the later unregistration"},
+			{Kind: "store", Target: "udp.endpoint.effectiveNetProtos", Args: []string{"$0", protos}, N: 1, Why: "... and exactly those protocols"},
+		})
+		c.Ordered(d6, fn, []string{"register new", "unregister old", "record new scope"}, []func(Site) bool{isCall("(*udp.endpoint).registerWithStack"), isCall("(*stack.Stack).UnregisterTransportEndpoint"), isStore("udp.endpoint.regNICID")})
+	}
+
 }
